@@ -52,6 +52,12 @@ FORCED = {
 }
 props = [json.loads(l) for l in open("/verif/properties.jsonl")]
 def focus_text(pid):
+    if int(wave) >= 8:
+        return ("For this round, prefer a bug that shows only through the INTERPLAY of two or three features that are each fine on their own, or through a second-order effect on a LATER operation: "
+                "observers x batch operations x relations; cached filters x Shrink x Reset x recycling of tables; entity dump/load x recycled IDs x relations; custom events x With/Without/Exclusive x relation archetypes; "
+                "open queries x lock bits x callbacks; CopyEntity x relations x observers; Exchange x relation targets x observers; objects created early (mappers, filters, queries, observers, Batch values, Relation slices, EntityDump values) "
+                "x later registration of component types, Reset, new tables, other worlds; statistics x freed/recycled tables; the zero entity or the wildcard slot used where an ordinary entity is expected. "
+                "Stay away from the functions listed below where you can.")
     if int(wave) >= 7:
         return ("For this round, prefer a bug whose trigger is an unusual MAGNITUDE or SHAPE rather than an unusual sequence of calls: more than 64 / 128 / 256 / 1000 of something "
                 "(entities in one table, tables in one relation archetype, archetypes, archetypes sharing a component, distinct relation targets, registered observers, cached filters, simultaneously open queries, resources, custom event types, registered component types), "
@@ -94,7 +100,7 @@ Requirements for the change:
 
 Deliverables (all required):
  a) {out}/patch.diff  -- output of `git -C {wt} diff` containing ONLY the library change (not the demonstration test).
- b) {out}/demo_test.go -- a Go test file (package ecs_test or package ecs; it will be placed in the ecs directory as seed_demo_test.go) with one test function whose name starts with TestSeed that FAILS with your change applied and PASSES on the unchanged library. Verify both directions yourself (use `git stash`/`git checkout` inside your worktree, or apply/reverse the patch) and say so. If the demonstration needs the race detector or build tags, say so in meta.json ("-race" in the text, or "demo_tags": "ark_debug").
+ b) {out}/demo_test.go -- a Go test file (package ecs_test or package ecs; it will be placed in the ecs directory as seed_demo_test.go) with one test function whose name starts with TestSeed that FAILS with your change applied and PASSES on the unchanged library. Verify both directions yourself by reversing and re-applying your patch (`git diff > /tmp/<something>.diff; git apply -R ...; git apply ...`); do NOT use `git stash` (the stash is shared between all worktrees of this repository and other people are working in sibling worktrees). Say that you verified both directions. If the demonstration needs the race detector or build tags, say so in meta.json ("-race" in the text, or "demo_tags": "ark_debug").
  c) {out}/meta.json -- JSON: {{"property": "{pid}", "summary": "<one sentence: what the change does>", "needs": "<what specific sequence/input/interleaving is needed for it to manifest>", "files": ["ecs/..."], "verified": {{"suite_passes_with_change": true, "demo_fails_with_change": true, "demo_passes_without_change": true}}}}
 When done, leave the worktree with your library change applied (uncommitted) and the demo test NOT inside the worktree (or remove it), and reply with a short summary (what you changed, why the existing tests do not notice, how it manifests).
 
